@@ -15,6 +15,8 @@ import Proofs.HistoryUndo
 import Proofs.MarkHistory
 import Proofs.InvertOk
 import Proofs.OpHistory
+import Proofs.UndoStructure
+import Proofs.OpGuardSplit
 import Props.C01
 namespace PM.C04
 open PM
@@ -2001,13 +2003,14 @@ def appended (tr tr1 : Tr) : List (Step × Node) := tr1.hist.drop tr.hist.length
 /-- **what is asked of an operation of a run** (`tr` before, `tr1` after).
     * `add_mark` / `remove_mark`: no inline node with content in the document (`flatInline`; no bundled schema
       has one), the same-type guard (finding C04-same-type-mark-order) and pair-alignment per recorded step;
-    * `join`: pair-alignment;
+    * `join`, `split`: pair-alignment;
     * every other operation: `FamilyGuard` of the steps it recorded. -/
 def OpResidual (S : Schema) (op : Op) (tr tr1 : Tr) : Prop :=
   match op with
   | .mark _ => flatInline S tr.doc = true ∧
       HistAll (fun s d d' => s.sameTypeGuard S d ∧ s.undoAligned d') (appended tr tr1) tr1.doc
   | .join _ _ => HistAll (fun s _ d' => s.undoAligned d') (appended tr tr1) tr1.doc
+  | .split _ _ => HistAll (fun s _ d' => s.undoAligned d') (appended tr tr1) tr1.doc
   | _ => HistAll (FamilyGuard S) (appended tr tr1) tr1.doc
 
 /-- the step `join` emits satisfies its `FamilyGuard`, given pair-alignment -/
@@ -2021,6 +2024,56 @@ theorem joinGuard_family (S : Schema) (d d' : Node) (pos depth : Nat) (st : Step
     refine ⟨by simp [Slice.empty, fnorm, chainOk], ?_, hal⟩
     show openValid S 0 0 [] = true
     simp [openValid, rightOpenValid]
+
+/-- the step `split` emits (two copies of the nest of empty ancestors, open on both sides) satisfies its
+    `FamilyGuard` on a valid document, given pair-alignment -/
+theorem splitGuard_family (S : Schema) (d d' : Node) (pos depth : Nat) (st : Step)
+    (hv : S.checkNode d = true) (hb : splitStep d pos depth = .ok st) (h : S.apply st d = .ok d')
+    (hal : st.undoAligned d') : FamilyGuard S st d d' := by
+  have hdoc : d.isLeaf = false := by
+    unfold splitStep at hb
+    cases hr : d.resolve pos with
+    | none => simp [hr] at hb
+    | some r =>
+      cases hnn : splitNodes r depth with
+      | none => simp [hr, hnn] at hb
+      | some nodes =>
+        simp only [hr, hnn, Except.ok.injEq] at hb
+        subst hb
+        cases d with
+        | elem => rfl
+        | text s m =>
+          exfalso
+          unfold Schema.apply at h
+          simp only [Schema.fromReplace, Schema.replace] at h
+          repeat' split at h
+          all_goals simp at h
+        | leaf ty a m =>
+          exfalso
+          unfold Schema.apply at h
+          simp only [Schema.fromReplace, Schema.replace] at h
+          repeat' split at h
+          all_goals simp at h
+  obtain ⟨sl, rfl, hsn, hp⟩ := split_guard_parts S d pos depth st hv hdoc hb
+  exact ⟨hsn, hp, hal⟩
+
+/-- the step `lift` emits satisfies its `FamilyGuard` on a valid normal-form document: slice in normal form
+    and well formed, ordered gap, valid payload, and the structure checks of the inverse (`hst`: the slice
+    carries only the close tokens of the ancestors split before the range and the open tokens of those
+    split after it).  Hypotheses left: `gapClean` (the range is a run of whole children: decidable, measured
+    true on every recorded lift step by the tie) and pair-alignment. -/
+theorem liftGuard_family (S : Schema) (d d' : Node) (a b depth target : Nat) (st : Step)
+    (hv : S.checkNode d = true) (hn : fnorm d.kids = true) (hab : a ≤ b)
+    (hb : liftStep d a b depth target = .ok st) (h : S.apply st d = .ok d')
+    (hclean : ∀ f t gf gt sl ins bb, st = .replaceAround f t gf gt sl ins bb → ∀ old, d.slice f t = .ok old →
+      gapClean old.content none (gf - f + old.openStart) (gt - f + old.openStart) = true)
+    (hal : st.undoAligned d') : FamilyGuard S st d d' := by
+  obtain ⟨f, t, gf, gt, sl, ins, rfl, hsn, hwf, hins, hgo, hshape⟩ :=
+    lift_guard_parts S d d' a b depth target st hv hn hab hb h
+  have hp := lift_payload_valid S d d' a b depth target _ hv hab hb h f t gf gt sl ins true rfl
+  exact ⟨hsn, hwf, hins, hgo, hp,
+    fun _ => replaceAround_hst_of_wrappers S d d' f t gf gt sl ins true hn hsn hwf hins hgo h hshape,
+    hclean f t gf gt sl ins true rfl, hal⟩
 
 theorem appended_eq {tr tr1 : Tr} {h2 : List (Step × Node)} (e : tr1.hist = tr.hist ++ h2) : appended tr tr1 = h2 := by
   simp [appended, e]
@@ -2047,7 +2100,12 @@ theorem op_family (S : Schema) (op : Op) (tr tr1 : Tr) (hlen : tr.steps.length =
   | addNodeMark pos m => exact hres
   | removeNodeMark pos sel => exact hres
   | setNodeAttribute pos name value => exact hres
-  | split pos depth => exact hres
+  | split pos depth =>
+    obtain ⟨st, hb, hs⟩ := Tr.built_some h
+    obtain ⟨e, ha⟩ := Tr.step_hist hlen hs
+    simp only [OpResidual] at hres
+    rw [appended_eq e] at hres ⊢
+    exact ⟨splitGuard_family S _ _ pos depth st hI.1 hb ha hres.1, trivial⟩
   | lift a b depth target => exact hres
   | wrap a b depth ws => exact hres
   | setNodeMarkup pos ty attrs marks => exact hres
